@@ -228,3 +228,12 @@ claim(
     "abstract interpretation with symbolic geometry; operand extraction of the defining comparison and polynomial identity against the centre-inclusion oracle; recorded-call check of the polygon sampler",
     "DESIGN.md §5 C43",
 )
+
+claim(
+    "C18",
+    "other",
+    "Decides apply_params up to the end of its device loop by abstract interpretation on devices with symbolic, possibly overlapping grid slices and a symbolic per-cell parameter x, as polynomial identities in the devices' region indicators: continuous two-material devices write 1/(p0 + x (p1-p0)) per stored component (isotropic and diagonal tiers) with materials in the common order; etched devices write 1/(bg + x (p_etch - bg)) with bg the reciprocal of the restored initial inverse permittivity, restored once before the first device (stale values never survive; a later etched device keeps an earlier device's cells); discrete devices store the table entry of 1/eps or of the inverted 3x3 tensor at the integer material index; dispersive stacks c1..c4 blend (1-x)c_N[0]+x c_N[1] or look up c_N[index], each N from its own table, c4 only when allocated; outside the device slices every array keeps its incoming (restored) value and several devices paint sequentially in list order. Parameter transform chains, voxel expansion and the straight-through gradient (C19) are not decided here.",
+    TB + "; prefix slicing of apply_params; symbolic table-lookup atoms for integer indices; indicator algebra; tree .at[name].set model",
+    "abstract interpretation of a function prefix over an indicator-algebra array domain; polynomial identity against a sequential-painting oracle",
+    "DESIGN.md §5 C18",
+)
